@@ -30,6 +30,10 @@ def run_cases(ctx, mod, only=None):
                 # stop early once a few distinct new mechanisms are on record
                 if len(ctx.viol_keys) >= 25:
                     break
+                # a violation outside the known findings is on record: look at a few more cases, then stop
+                if ctx.cases_at_first_new_violation is not None and \
+                        ctx.cases_run - ctx.cases_at_first_new_violation >= getattr(mod, "CASES_AFTER_VIOLATION", 40):
+                    break
         ctx.current_case = None
     finally:
         if hasattr(mod, "teardown"):
